@@ -301,6 +301,15 @@ func cmdCheck(args []string) int {
 			}
 		}
 	}
+	if *verbose {
+		rs := append([]*Result(nil), results...)
+		sort.Slice(rs, func(i, j int) bool { return rs[i].Seconds > rs[j].Seconds })
+		for i, r := range rs {
+			if i < 12 {
+				fmt.Fprintf(os.Stderr, "slow %-70s %6.2fs %s %s paths=%d\n", r.Group.Name, r.Seconds, r.Verdict, r.Solver, len(r.Group.Obls))
+			}
+		}
+	}
 	for _, l := range knownHit {
 		fmt.Println(l)
 	}
